@@ -74,6 +74,21 @@ var tlTemplates = []string{
 	"a\xffE\xffE\xffWb" + hA,                   // 56
 	"a\n#" + hA + hA + "\n" + hA + hA,          // 57
 	"[a]: b\n" + hA + hA + hA,                  // 58
+	// ---- added after the first seeded-change campaign (59..)
+	"[a]: b\n" + hA + hA,                       // 59 definition directly followed by a line
+	"[a]: b" + hA + "\n" + hA + "c",             // 60 byte before / after the line ending of a destination
+	"[a]: b\n" + hA + " \n---",                 // 61 definition, paragraph line, setext underline
+	"> [a]: " + hA + "\n> " + hA + "c",          // 62 the same inside a block quote
+	"[a](b" + hA + "\n" + hA + "c)",             // 63 inline destination / title boundary at a line ending
+	"- " + hA + "\n\n  " + hA + "\n",           // 64 list item with a second paragraph
+	"[![[" + hA + "](b)](c)](d)",               // 65 link > image > link
+	"![a *" + hA + "](b) c*",                   // 66 emphasis opener inside an image description, closer outside
+	"[a *" + hA + "](b) c*",                    // 67 the same for a link
+	"![" + hA + "]\n\n[a]: b",                  // 68 shortcut image reference
+	"![" + hA + "][]\n\n[a]: b",                // 69 collapsed image reference
+	"\xffS```" + hA + "\n" + hA,                // 70 indented fence
+	"> \xffS\xffS```\n> " + hA,                 // 71 indented fence inside a block quote
+	"![a][" + hA + "]\n\n[b]: c",               // 72 full image reference
 }
 
 // tlQuick lists the templates with at most two holes... (kept for reference);
